@@ -32,7 +32,11 @@ Inductive rerr :=
 | EThrow                     (* the C++ throws: DetailedPlacement::place "Cannot place the cell" in a write-back *)
 | EUndefined                 (* undefined behaviour in the C++: negative nbNeighbours (invalid iterator range), or a window
                                 step <= 0 (the loop of runReorderingOnRows does not advance) *)
-| EConstruct.                (* fromIspdCircuit throws *)
+| EConstruct                 (* fromIspdCircuit throws *)
+| EOracle                    (* closed shift driver: no recorded answer is left for a runShiftsOnCells call, or lemon's recorded answer
+                                fails the proved certificate checker ShiftLp.shift_cert_ok (the step is then NOT accepted) *)
+| ERecord.                   (* closed shift driver: the recorded call differs from the model's -- other cells / another order, or
+                                another network (multiset of labelled arcs) than ShiftLp.shift_net builds *)
 Inductive rres (A : Type) := ROk (a : A) | RErr (e : rerr).
 Arguments ROk {A} a. Arguments RErr {A} e.
 Definition rbind {A B} (r : rres A) (f : A -> rres B) : rres B := match r with ROk a => f a | RErr e => RErr e end.
@@ -325,6 +329,113 @@ Definition place_detailed_model (c : circuit) (nets : list (list hpin)) (p : dpa
   | DOk d0 =>
       match run_passes p shifts {| ps_d := d0; ps_o := init_models c nets |} with
       | ROk (s, ex) => ROk (write_back c (ps_d s), map (fun st => write_back c (ps_d st)) ex)
+      | RErr e => RErr e
+      end
+  end.
+
+(* ====================================================================================================== *)
+(* The shift pass with its DRIVER closed: runShifts (:421) and runShiftsOnRows (:441) are modelled like
+   runReordering -- the row sets from RowNeighbourhood, the cell list, the windows, the overlap --, so that the model
+   decides WHICH cells every runShiftsOnCells call receives.  Only lemon's ANSWER to each call stays an oracle: a record
+   per call, in call order, of the cells the C++ passed (checked against the model's), the arcs of the network it built
+   with lemon's flow on each (checked: same multiset of labelled arcs as ShiftLp.shift_net), and lemon's potentials.
+   The answer is accepted only if the PROVED checker ShiftLp.shift_cert_ok accepts it on the MODEL's network. *)
+Record shift_answer := { sa_cells : list nat; sa_pi : snode -> Z; sa_flows : list (arc * Z) }.
+
+Definition arc_eqb (a b : arc) : bool :=
+  snode_eqb (a_src a) (a_src b) && snode_eqb (a_tgt a) (a_tgt b) && (a_cost a =? a_cost b).
+
+(* the flow of the first recorded arc with the labels of a, and the records without it *)
+Fixpoint take_flow (a : arc) (cf : list (arc * Z)) : option (Z * list (arc * Z)) :=
+  match cf with
+  | [] => None
+  | (b, v) :: t => if arc_eqb a b then Some (v, t)
+                   else match take_flow a t with Some (w, t') => Some (w, (b, v) :: t') | None => None end
+  end.
+
+(* the recorded flows in the order of the model's arcs; None unless the two multisets of labelled arcs are equal *)
+Fixpoint match_flows (marcs : list arc) (cf : list (arc * Z)) : option (list Z) :=
+  match marcs with
+  | [] => match cf with [] => Some [] | _ => None end
+  | a :: t => match take_flow a cf with
+              | Some (v, cf') => match match_flows t cf' with Some l => Some (v :: l) | None => None end
+              | None => None
+              end
+  end.
+
+Definition list_nat_eqb (a b : list nat) : bool := (length a =? length b)%nat && forallb (fun p => Nat.eqb (fst p) (snd p)) (combine a b).
+
+(* runShiftsOnCells(cells) (:457) with the next recorded answer: the write-back is DetailedValue.pshift *)
+Definition shift_on_cells (st : pstate * list shift_answer) (sel : list nat) : rres (pstate * list shift_answer) :=
+  let '(s, ans) := st in
+  match ans with
+  | [] => RErr EOracle
+  | a :: rest =>
+      if negb (list_nat_eqb sel (sa_cells a)) then RErr ERecord
+      else
+        let N := shift_net (ps_d s) (ox (ps_o s)) sel in
+        match match_flows (n_arcs N) (sa_flows a) with
+        | None => RErr ERecord
+        | Some f => if shift_cert_ok N (sa_pi a) f then ROk (pshift s sel (sa_pi a), rest) else RErr EOracle
+        end
+  end.
+
+(* runShiftsOnRows(rows, maxNbCells) (:441): the same cell list and windows as runReorderingOnRows *)
+Definition run_shifts_on_rows (st : pstate * list shift_answer) (rows : list nat) (maxNbCells : Z) : rres (pstate * list shift_answer) :=
+  let cells := rows_cells (ps_d (fst st)) rows in
+  let overlap := Z.min (Z.quot maxNbCells 2) 10 in
+  let step := maxNbCells - overlap in
+  match cells with
+  | [] => ROk st
+  | _ => if step <=? 0 then RErr EUndefined
+         else rfold shift_on_cells (windows (Z.to_nat maxNbCells) (Z.to_nat step) cells 0) st
+  end.
+
+(* runShifts(nbRows, maxNbCells) (:421): nothing if nbRows < 2; RowNeighbourhood(rows, nbRows / 2); for
+   (r = 0; r < nbRows(); r += nbRows / 2): rows = r, rowsBelow(r), rowsAbove(r).  (Its final placement_.check() is an
+   assertion on what Inv proves.) *)
+Definition run_shifts (st : pstate * list shift_answer) (nbRows maxNbCells : Z) : rres (pstate * list shift_answer) :=
+  if nbRows <? 2 then ROk st
+  else
+    let k := Z.quot nbRows 2 in
+    let rects := rects_of (ps_d (fst st)) in
+    let starts := filter (fun r => Z.of_nat r mod k =? 0) (seq 0 (length (d_rows (ps_d (fst st))))) in
+    rfold (fun st' r => run_shifts_on_rows st' (r :: rows_below rects k r ++ rows_above rects k r) maxNbCells) starts st.
+
+(* one pass of run() with the shift driver closed *)
+Definition run_pass_c (p : dparams) (acc : pstate * list pstate * list shift_answer) : rres (pstate * list pstate * list shift_answer) :=
+  let '(s, ex, ans) := acc in
+  rbind (run_swaps s (dp_localSearchNbNeighbours p) (dp_localSearchNbRows p)) (fun s1 =>
+  let ex1 := s1 :: ex in
+  rbind (if 2 <=? dp_shiftMaxNbCells p
+         then rbind (run_shifts (s1, ans) (dp_shiftNbRows p) (dp_shiftMaxNbCells p)) (fun st2 => ROk (fst st2, fst st2 :: ex1, snd st2))
+         else ROk (s1, ex1, ans)) (fun acc2 =>
+  let '(s2, ex2, ans2) := acc2 in
+  if 2 <=? dp_reorderingMaxNbCells p
+  then rbind (run_reordering s2 (dp_reorderingNbRows p) (dp_reorderingMaxNbCells p)) (fun s3 => ROk (s3, s3 :: ex2, ans2))
+  else ROk (s2, ex2, ans2))).
+
+Fixpoint run_passes_c_from (n : nat) (p : dparams) (acc : pstate * list pstate * list shift_answer) : rres (pstate * list pstate * list shift_answer) :=
+  match n with
+  | O => ROk acc
+  | S n' => rbind (run_pass_c p acc) (run_passes_c_from n' p)
+  end.
+
+(* the final state, the states exposed at the callbacks in order, the answers NOT consumed (none when the C++ made
+   exactly the calls the model makes) *)
+Definition run_passes_c (p : dparams) (answers : list shift_answer) (s : pstate) : rres (pstate * list pstate * list shift_answer) :=
+  match run_passes_c_from (Z.to_nat (dp_nbPasses p)) p (s, [], answers) with
+  | ROk (s', ex, rest) => ROk (s', rev ex, rest)
+  | RErr e => RErr e
+  end.
+
+Definition place_detailed_model_c (c : circuit) (nets : list (list hpin)) (p : dparams) (answers : list shift_answer)
+  : rres (circuit * list circuit * list shift_answer) :=
+  match from_circuit c with
+  | DErr _ => RErr EConstruct
+  | DOk d0 =>
+      match run_passes_c p answers {| ps_d := d0; ps_o := init_models c nets |} with
+      | ROk (s, ex, rest) => ROk (write_back c (ps_d s), map (fun st => write_back c (ps_d st)) ex, rest)
       | RErr e => RErr e
       end
   end.
